@@ -23,7 +23,7 @@ PROPS = {
     "C02": dict(
         pkg="c02",
         quick=T(8, 2, 900),
-        thorough=T(16, 40, 3400),
+        thorough=T(16, 40, 3400, fuzz=[dict(name="FuzzGenDerive", count=600000)]),
         assumptions=[
             "harness/ref/slip10 (own SLIP-0010 model; reproduces every official SLIP-0010 vector incl. the retry vectors, pinned copies in /verif/data/slip10) over harness/ref/secp (affine big-integer secp256k1/P-256) and crypto/ed25519 for the ed25519 public key",
             "toy curves implement slip10.Curve/slip10.Key in the harness; the reference uses the same validity predicate",
@@ -64,7 +64,7 @@ PROPS = {
     "C12": dict(
         pkg="c12",
         quick=T(8, 1.5, 900),
-        thorough=T(16, 40, 3400),
+        thorough=T(16, 40, 3400, fuzz=[dict(name="FuzzGenLanes", count=800000)]),
         assumptions=[
             "harness/ref/pow: difficulty floor(3^243/h) and score on math/big over the scalar Curl reference",
             "completeness is checked for a single worker by re-hashing every nonce of every skipped 64-block with the scalar reference",
@@ -119,7 +119,7 @@ PROPS = {
     "C18": dict(
         pkg="c18",
         quick=T(8, 2, 900),
-        thorough=T(16, 40, 3400, fuzz=[dict(name="FuzzVerify", count=80000)]),
+        thorough=T(16, 40, 3400, fuzz=[dict(name="FuzzVerify", count=80000), dict(name="FuzzGenVerify", count=300000), dict(name="FuzzGenProve", count=300000)]),
         assumptions=[
             "harness/ref/vrf: own RFC 9381 ECVRF-EDWARDS25519-SHA512-TAI on harness/ref/ed (reproduces RFC 9381 appendix B.3 examples 16-18)",
             "public keys are always 32 bytes (other lengths are a documented panic)",
@@ -150,7 +150,7 @@ PROPS = {
     "C07": dict(
         pkg="c07",
         quick=T(4, 3, 600),
-        thorough=T(16, 250, 3000),
+        thorough=T(16, 250, 3000, fuzz=[dict(name="FuzzGenSign", count=2000000)]),
         assumptions=["crypto/ed25519 of the Go standard library is the RFC 8032 reference (differential oracle)"],
     ),
     "C08": dict(
@@ -182,7 +182,7 @@ PROPS = {
         variants=[[], ["purego"], ["GOARCH=386"]],
         every_target_must_build=True,  # the statement covers build targets: a target that stops compiling is a finding
         quick=T(8, 2, 900),
-        thorough=T(16, 300, 3400),
+        thorough=T(16, 300, 3400, fuzz=[dict(name="FuzzGenStates", count=200000)]),
         assumptions=[
             "harness/ref/curl (scalar truth-table Curl-P-81, validated on pinned vectors) defines the per-lane result",
             "memory safety of the assembly is observed with mmap'ed buffers flush against 1 MiB PROT_NONE guard regions on both sides (two placements) and debug.SetPanicOnFault; the routine's addresses are input-independent (constant-bound loops, no data-dependent branch), so each guarded execution exercises every memory access of the routine as checked in; an access further than 1 MiB from the buffers that happens to hit mapped memory would be missed",
